@@ -25,7 +25,11 @@ CURVES = {       # id tag -> (file, enum)
 FITS = {"f1": dict(model_key="hertz_para"),
         "f2": dict(model_key="hertz_cone"),
         # same model, nearly the same settings: the fit differs only slightly
-        "f3": dict(model_key="hertz_para", weight_cp=9e-7)}
+        "f3": dict(model_key="hertz_para", weight_cp=9e-7),
+        # fitted on the OTHER segment: NaN exactly where f1 is defined
+        "f4": dict(model_key="hertz_para", segment=1),
+        # an unsuccessful fit: the fit column is NaN everywhere
+        "f5": dict(model_key="hertz_para", range_x=[1.0, 2.0])}
 USERS = {"u1": ("alice", 3, "first look"), "u2": ("bob", 7, "second opinion")}
 WRITE_KINDS = {"fit", "fit range", "force", "fit residuals", "tip position",
                "segment"}
@@ -125,7 +129,8 @@ def reference(cid, ftag):
                                "fit residuals", "fit range")},
             "sett": {k: world.norm(k, v) for k, v in
                      idnt.fit_properties.items() if k in world.FP_KEYS},
-            "pf": world._norm(idnt.fit_properties["params_fitted"]),
+            "pf": world._norm(idnt.fit_properties["params_fitted"])
+            if "params_fitted" in idnt.fit_properties else None,
             "hash": idnt.fit_properties["hash"],
             "feats": vcommon.digest(np.asarray(feats, float)),
         }
@@ -236,8 +241,9 @@ def project(path, ids, hash2fit):
             for k, nv in ref["sett"].items():
                 if k not in fp or world.norm(k, fp[k]) != nv:
                     obs["rt_settings"] = False
-            if "params_fitted" not in fp or \
-                    world._norm(fp["params_fitted"]) != ref["pf"]:
+            got = world._norm(fp["params_fitted"]) \
+                if "params_fitted" in fp else None
+            if got != ref["pf"]:
                 obs["rt_settings"] = False
             ent = st["ana"][key]["user"]
             u = ent["user name"]
@@ -288,15 +294,20 @@ def record_steps(tmp):
     path = pathlib.Path(tmp) / "steps.h5"
     out = {}
 
-    def one(cid, ftag, utag, label):
+    def one(cid, ftag, utag):
         inj.count, inj.fail_at, inj.log = 0, 0, []
         name, rate, comment = USERS[utag]
         rio.save_hdf5(path, fitted(cid, ftag), rate, name, comment)
-        out[label] = [step_kind(n, a, None) for n, a in inj.log]
+        lst = [step_kind(n, a, None) for n, a in inj.log]
         inj.log = None
-    one("B1", "f1", "u1", "new")
-    one("B2", "f1", "u1", "new_noraw")
-    one("B1", "f1", "u2", "resave")
+        return lst
+    out = {"new": {}, "new_noraw": {}, "resave": {}}
+    for ftag in FITS:
+        if path.exists():
+            path.unlink()
+        out["new"][ftag] = one("B1", ftag, "u1")
+        out["new_noraw"][ftag] = one("B2", ftag, "u1")
+        out["resave"][ftag] = one("B1", ftag, "u2")
     out["required"] = ["data enum", "data hash", "fit", "fit range", "force",
                        "fit residuals", "tip position", "segment",
                        "user name", "user rate", "user comment", "fit hash"]
@@ -307,8 +318,8 @@ def record_steps(tmp):
         while n < len(lst) and lst[n]["kind"] == "grp":
             n += 1
         return n
-    out["resave_prefix"] = lead(out["resave"])
-    out["noraw_prefix"] = lead(out["new_noraw"])
+    out["resave_prefix"] = lead(out["resave"]["f1"])
+    out["noraw_prefix"] = lead(out["new_noraw"]["f1"])
     return out
 
 
@@ -362,7 +373,8 @@ def run_history(job):
 
 def histories(tier, rng, nsteps):
     alpha = [("B1", "f1", "u1"), ("B1", "f1", "u2"), ("B1", "f2", "u1"),
-             ("B2", "f1", "u1"), ("A0", "f2", "u2"), ("B1", "f3", "u2")]
+             ("B2", "f1", "u1"), ("A0", "f2", "u2"), ("B1", "f3", "u2"),
+             ("B1", "f4", "u2"), ("B1", "f5", "u1")]
     out = []
     # every single save with a crash at every write call, followed by a
     # clean save of another / the same curve and a re-save
